@@ -27,11 +27,8 @@ THEOREMS = [
     "KrroodVerif.Rdr.C08_eval_partial",
     "KrroodVerif.Rdr.C08_today_end_to_end",
     "KrroodVerif.Rdr.C08_build_partial",
-    "KrroodVerif.Rdr.C08_full_partial",
-    "KrroodVerif.Rdr.C08_fixed_end_to_end",
     "KrroodVerif.Rdr.C08_authoring",
     "KrroodVerif.Rdr.C08_build_partial_authored",
-    "KrroodVerif.Rdr.C08_full_partial_authored",
     "KrroodVerif.Rdr.C08_today_end_to_end_authored",
     "KrroodVerif.Rdr.C08_two_variables_conservative",
     "KrroodVerif.Rdr.C08_spec_conservative",
@@ -58,10 +55,7 @@ ASSUMPTIONS = [
     "(KY_c(src=x, aux=y), classes >= 1000) and mention y only where y is bound. Not generated, because the code's "
     "else-if is per result while its except-if is per rule and the property text does not say which reading applies: "
     "an alternative written after a member of its chain that introduces y; more than one refinement of one rule "
-    "introducing y (only the first written may). Also not generated over two variables: an unlinked refinement "
-    "(F-C08-2) followed by an alternative/next_rule in the same block - the surgery then shares a condition leaf, whose "
-    "re-evaluation returns the caller's bindings dict (by then extended by the query descriptor): dict aliasing is not "
-    "modelled. Theorems cover the y-free fragment (conservative-extension "
+    "introducing y (only the first written may). Also not generated over two variables (left over from before fix 6d59379, when such a refinement stayed unlinked and a shared condition leaf made the result depend on dict aliasing): a refinement that is not the first branch of the rule's own block followed by an alternative/next_rule in the same block. Theorems cover the y-free fragment (conservative-extension "
     "theorems); two-variable programs are covered by the correspondence only",
     "multi-step authoring is generated at the rule's own level only (several `with rule:` blocks, base Add anywhere "
     "between the branches); branch blocks are written once, conclusions first",
